@@ -8,6 +8,7 @@ mod core;
 mod engine;
 mod vgen;
 mod genapi;
+mod looped;
 mod monitor;
 mod oracle;
 mod sdk;
